@@ -89,13 +89,13 @@ Proof. intros Hpc Ha. cbn [step]. unfold step_task. rewrite Hpc, Ha. reflexivity
 
 (* resize on a closed pool is the identity on the pool *)
 Lemma resize_closed c s t n :
-  pcof s t = OResize n -> closed s = true ->
+  pcof s t = OResizeL n -> closed s = true ->
   step c s (Step t) = Some (tick (setpc s t (PDone RUnit))).
 Proof. intros Hpc Hc. cbn [step]. unfold step_task. rewrite Hpc, Hc. reflexivity. Qed.
 
 (* ---------------------------------------------------------------- resize *)
 Lemma resize_open c s t n :
-  pcof s t = OResize n -> closed s = false ->
+  pcof s t = OResizeL n -> closed s = false ->
   step c s (Step t) = Some (tick (setpc (resize_locked s t (Z.of_nat n)) t (PDone RUnit))).
 Proof. intros Hpc Hc. cbn [step]. unfold step_task. rewrite Hpc, Hc. reflexivity. Qed.
 
@@ -130,7 +130,8 @@ Proof.
 Qed.
 
 (* debt is only created by resize / close *)
-Definition is_rc_pc (p : pc) : bool := match p with OResize _ | OClose => true | _ => false end.
+Definition is_rc_pc (p : pc) : bool :=
+  match p with OResize _ | OClose | OResizeL _ | OCloseL => true | _ => false end.
 
 Lemma debt_only_grows_by_resize c s l s' :
   step c s l = Some s' ->
@@ -138,8 +139,8 @@ Lemma debt_only_grows_by_resize c s l s' :
 Proof.
   intros H Hl.
   step_leaves H; sp; autorewrite with fld; sp; try lia;
-    try match goal with E : pcof s ?t = OResize _ |- _ => specialize (Hl t eq_refl); rewrite E in Hl; discriminate Hl end;
-    try match goal with E : pcof s ?t = OClose |- _ => specialize (Hl t eq_refl); rewrite E in Hl; discriminate Hl end.
+    try match goal with E : pcof s ?t = OResizeL _ |- _ => specialize (Hl t eq_refl); rewrite E in Hl; discriminate Hl end;
+    try match goal with E : pcof s ?t = OCloseL |- _ => specialize (Hl t eq_refl); rewrite E in Hl; discriminate Hl end.
   all: try match goal with E : retain_loop ?t ?ds ?v ?s0 = (?s1, _, _) |- _ =>
              pose proof (retain_loop_effect t ds v s0) as R; rewrite E in R;
              destruct R as (R1&R2&R3&R4&R5&R6&R7&R8&R9&R10&R11&R12&R13&R14); lia end.
@@ -161,7 +162,7 @@ Lemma quiescent_sums l :
 Proof.
   induction l as [|p l IH]; cbn [forallb sum]; [repeat split|].
   intros H. apply andb_prop in H. destruct H as [Hp Hl]. destruct (IH Hl) as (I1&I2&I3).
-  destruct p as [|g|g|g []|g|g|g o st|g|g o|g o k|g o k|g o k|r0|r0|o|o| |o|o|o|o|o|o|n0|ds| | | |r0];
+  destruct p as [|g|g|g []|g|g|g o st|g|g o|g o k|g o k|g o k|r0|r0|o|o| |o|o|o|o|o|o|n0|ds| | | |n|ds|ds| | |r0];
     try discriminate Hp; cbn [hp cs up nwait]; repeat split; lia.
 Qed.
 
